@@ -246,6 +246,26 @@ def build_unit(unit):
     return text, linemap, funcs, rewrites_info
 
 
+def scan_text(unit_name, text):
+    """mechanical scan of a generated Verus file for trusted constructs"""
+    ass = []
+    tlines = text.splitlines()
+    for n, line in enumerate(tlines, 1):
+        code = line.split('//')[0]
+        for pat in ('assume_specification', 'external_body', 'admit(', 'assume(', 'verifier::external', 'verifier::truncate', 'axiom', 'uninterp spec fn'):
+            if pat in code:
+                what = code.strip()
+                if 'external_body' in code and n < len(tlines):
+                    k = n
+                    while k < len(tlines) and (not tlines[k].strip() or tlines[k].strip().startswith('#[')):
+                        k += 1
+                    if k < len(tlines):
+                        what += ' ' + tlines[k].strip()
+                ass.append('verus %s.rs:%d: %s' % (unit_name, n, what[:170]))
+                break
+    return ass
+
+
 def run_verus(path, extra=None, timeout=900):
     cmd = ['verus', path, '--output-json', '--time', '--error-format=json'] + (extra or [])
     if '--multiple-errors' not in cmd:
@@ -402,12 +422,7 @@ def _run_unit_once(unit, obs, tier, seed, keep=False):
         ass = []
         for r in rw:
             ass.append('extraction rewrite in %s: %s -> %s (%d sites)' % (r['item'], r['pattern'], r['replacement'], r['sites']))
-        for n, line in enumerate(text.splitlines(), 1):
-            code = line.split('//')[0]
-            for pat in ('assume_specification', 'external_body', 'admit(', 'assume(', 'verifier::external', 'verifier::truncate', 'axiom'):
-                if pat in code:
-                    ass.append('verus %s.rs:%d: %s' % (unit['unit'], n, code.strip()[:150]))
-                    break
+        ass += scan_text(unit['unit'], text)
         first['assumptions'] = ass
         first['degraded'] = list(dict.fromkeys(DEGRADED))
         first['seeds'] = len(seeds)
